@@ -77,6 +77,9 @@ class CallMixin:
                     return self.raising(st, None, [(AttributeError, TRUE)], node)[:-1]
             if isinstance(o, (str, tuple, list, dict, set, frozenset, int, float)):
                 return [(st, BM(base, name))]
+            if type(o).__module__.startswith("statham") and not isinstance(o, type):
+                # a live statham object (module-level singleton): mutable state, so symbolic attributes
+                return self.getattr(st, self.named_object(o), name, node)
             # live instance used as a constant: its attributes are constants too
             try:
                 val = getattr(o, name)
@@ -225,6 +228,8 @@ class CallMixin:
                 return self.call_function(st, o, args, kwargs, node)
             if inspect.ismethod(o):
                 return self.call_function(st, o.__func__, [PyC(o.__self__)] + args, kwargs, node)
+            if type(o).__module__.startswith("statham") and inspect.isfunction(_static(type(o), "__call__")):
+                return self.call_function(st, _static(type(o), "__call__"), [self.named_object(o)] + args, kwargs, node, selfcls=type(o))
             raise OutOfSubset(f"call of constant {o!r:.50}", node)
         if isinstance(f, (Val, SymObj)):
             return self.dynamic_call(st, f, args, kwargs, node)
@@ -239,6 +244,11 @@ class CallMixin:
             d = _static(cls if not isinstance(f, SymObj) else f.cls, "__call__")
             if inspect.isfunction(d):
                 return self.call_function(st, d, [f] + args, kwargs, node, selfcls=cls)
+        if key == "<callable1>":
+            fv = self.lift(f)
+            self.declare_fun("call1", ["V", "V"], "V")
+            self.trusted_used.add("registered format checkers are total pure predicates: call1(f, x) (uninterpreted), no exception, no effect")
+            return [(st, Val(f"(call1 {asV(fv)} {asV(self.lift(args[0]))})"))]
         if key is None:
             raise OutOfSubset(f"dynamic call `{src}` has no `calls` entry in the contract", node)
         c = lookup(key)
@@ -376,8 +386,6 @@ class CallMixin:
             st.assume(f"(and (k_obj {res.t}) (= (class_of (oid {res.t})) {self.ctab.cid(rcls)}))")
         for extra in c.assume:
             st.assume(sp.compile_bool(extra))
-        if rcls is not None and issubclass(rcls, BaseException):
-            return Exc(rcls, val=res, node=node)
         return res
 
     def exc_class(self, name):
@@ -393,7 +401,7 @@ class CallMixin:
             return [(st, Val("v_np", kind="np"))]
         if issubclass(cls, BaseException):
             so = SymObj(cls, {"args": PyList(args, "tuple")})
-            return [(st, Exc(cls, val=so, node=node))]
+            return [(st, so)]
         if not cls.__module__.startswith("statham"):
             raise OutOfSubset(f"constructor of {cls.__name__}", node)
         new = _static(cls, "__new__")
